@@ -45,6 +45,7 @@ type Session struct {
 	// BasePathFS: the base path (must never show up in results or errors) and whether it did during the call
 	BasePath string
 	leak     bool
+	SubDir   string // directory of the Sub view the calls go through
 }
 
 // Cred is the acting user of the session (nil = administrator).
